@@ -450,6 +450,18 @@ def specTagClosedB (es : List Entry) : Bool :=
 
 def allFixedB (es : List Entry) : Bool := es.all (·.field.isFixed)
 
+/-- instance invariant (decidable form): every value of the instance names a field present in it and is at most
+that field's `max_value` -/
+def instOKB (es : List Entry) (fv : Reqs) : Bool :=
+  fv.all fun iv => es.any fun e => e.ident == iv.1 && e.enabled fv && decide (iv.2 ≤ e.field.maxValue)
+
+/-- every present field of the instance that has a value and a length holds a value below `2^length` -/
+def valuesFitB (es : List Entry) (fv : Reqs) : Bool :=
+  (enabledFields es fv).all fun e =>
+    match fv.lookup e.ident, e.field.length with
+    | some x, some l => decide (x < 2 ^ l)
+    | _, _ => true
+
 /-- width an entry will have after assignment -/
 def Entry.width (e : Entry) : Nat := e.field.chosenLen
 
@@ -559,6 +571,14 @@ def handle (op : String) (j : Json) : R Json := do
     let L ← nat j "length"
     let es ← (← arr j "entries").mapM entryOfJson
     pure (Json.mkObj [("fits", Json.bool (floatingFitsB L es)), ("nested", Json.bool (nestedB es))])
+  | "consts" =>
+    -- the constants regenerated from the source (hypotheses of `complete_floating` / `inv_addField`)
+    pure (Json.mkObj [("scan_slack", jNat SCAN_SLACK), ("max_value_default", jNat MAX_VALUE_DEFAULT)])
+  | "instance" =>
+    -- the instance predicates on a tree and a `field_values` dict dumped from the implementation
+    let es ← (← arr j "entries").mapM entryOfJson
+    let fv ← reqsOfJson (← field j "fv")
+    pure (Json.mkObj [("inst_ok", Json.bool (instOKB es fv)), ("values_fit", Json.bool (valuesFitB es fv))])
   | "key_oracle" =>
     -- implementation outputs: key, mask, and for every enabled field (start, len, value)
     let es ← (← arr j "entries").mapM entryOfJson
